@@ -346,7 +346,10 @@ def run_case(c):
     from mc import env
     env.tidalpy()
     import numpy as np
-    if c.get('kind') == 'warm':
+    if c.get('kind') == 'warm':     # compile once per tree (numba on-disk cache then serves every worker)
+        if c.get('impl'):
+            shipped_modes(c['impl'], True)
+            return dict(status='pass', viol=[], obs=None)
         c = dict(ysrc='arb-0', moduli='elastic', l=2, pot='ylm-cos', seed=0)
     l, ysrc, modname = c['l'], c['ysrc'], c['moduli']
     src = radial_source(ysrc, modname, l)
@@ -415,7 +418,7 @@ def cases(tier, seed):
 
 def run(ctx):
     from mc.core import run_lattice
-    ctx.map('mc.props.C15:run_case', [dict(kind='warm')] * 3, chunk=1)
+    ctx.map('mc.props.C15:run_case', [dict(kind='warm')] + [dict(kind='warm', impl=i) for i in SHIPPED], chunk=1)
     cs = cases(ctx.tier, ctx.seed)
     res = run_lattice(
         ctx, 'mc.props.C15:run_case', cs, chunk=4, min_admitted_frac=0.9,
